@@ -84,9 +84,9 @@ func (t *Topo) fault() string {
 var errTopoInjected = errors.NewUnavailable("topo: injected unavailable")
 
 // AddTarget pre-creates a configurable target entity (setup, not a scheduled effect).
-func (t *Topo) AddTarget(id, typ, ver string, persistent bool) {
+func (t *Topo) AddTarget(id, typ, ver string, persistent bool, validateCaps ...bool) {
 	e := &topoapi.Object{ID: topoapi.ID(id), Type: topoapi.Object_ENTITY, Obj: &topoapi.Object_Entity{Entity: &topoapi.Entity{KindID: "devicesim"}}}
-	_ = e.SetAspect(&topoapi.Configurable{Type: typ, Version: ver, Target: id, Address: id + ":1", Persistent: persistent})
+	_ = e.SetAspect(&topoapi.Configurable{Type: typ, Version: ver, Target: id, Address: id + ":1", Persistent: persistent, ValidateCapabilities: len(validateCaps) > 0 && validateCaps[0]})
 	t.put(e, topoapi.EventType_ADDED)
 }
 
